@@ -126,7 +126,57 @@ def instances(tier, seed):
             sp = fam.with_horizon(fill_values(pmodel(), 2), H[5])
             sp.initial = [(X(0), t * 2 + 1), (X(1), Pg('a') * 3), (U(0), t * Pg('a'))]
             add(kind='order', spec=sp, cfg=Cfg(method, N=2, M=1, intg='rk', grid=g, degree=2, scheme='radau'), order=order)
+    # a PARAMETRIC horizon on a grid with localized time variables and no expression guess at all: the guesses of the local time variables follow the value
+    for oi, order in enumerate([['T', 'pT2'], ['pT2', 'T'], ['T', 'pT2', 'a2', 'T2']]):
+        for method, g in (('MS', fam.G_UNI_LT), ('DC', fam.G_FREE), ('SS', fam.G_UNI_LT0), ('MS', fam.G_GEO_LOC_LT)):
+            sp = fam.with_horizon(fill_values(pmodel(), 2), H[5])
+            sp.initial = [(X(0), Fr(3, 2))]
+            add(kind='order', spec=sp, cfg=Cfg(method, N=2, M=1, intg='rk', grid=g, degree=2, scheme='radau'), order=order)
+    # parameters of stages: every stage (clones of one template included) carries its OWN value, given before the transcription, changed after it,
+    # and remembered across a re-transcription
+    for mi, (method, ncl) in enumerate((('MS', 2), ('DC', 2), ('SS', 3))):
+        add(kind='stage-values', method=method, nclones=ncl, N=2 + mi % 2)
     return items
+
+
+def run_stage_values(item):
+    """ground (tagged distinct values): the number the NLP carries for the parameter of stage i is the value last assigned on stage i"""
+    from .c12 import build, stage_model
+    method, ncl, N = item['method'], item['nclones'], item['N']
+    cfg = Cfg(method, N=N, M=1, intg='rk', grid=fam.G_UNI, degree=2, scheme='radau')
+    tplspec = stage_model(0)                     # has the global parameter 'a'
+    stages = [dict(spec=tplspec, cfg=cfg, t0=('num', Fr(i)), T=('num', Fr(1)), clone_of='tpl', pvals={'a': Fr(5 + 2 * i, 4)}) for i in range(ncl)]
+    stages.append(dict(spec=stage_model(0), cfg=cfg, t0=('num', Fr(ncl)), T=('num', Fr(1)), clone_of=None, pvals={'a': Fr(31, 8)}))
+    want = [float(sd['pvals']['a']) for sd in stages]
+    viol, proved = [], []
+    with quiet():
+        m = build(dict(stages=stages, coupling=[('cont', i, i + 1) for i in range(len(stages) - 1)], parent=[('w2',)]))
+        m.ocp.solver('ipopt')
+
+    def seen(tag):
+        with quiet():
+            m.ocp._transcribed
+            op_ = m.ocp._method.opti
+            got = [float(op_.debug.value(b.stage.value(b.psym['a']), op_.initial())) for b in m.stage_builts]
+        for i, (g_, w_) in enumerate(zip(got, want)):
+            if close(g_, w_):
+                proved.append('%s: stage %d sees its own value' % (tag, i))
+            else:
+                viol.append({'property': PROP, 'key': 'stage-value|%s|%s' % (method, tag), 'label': 'stage %d' % i,
+                             'detail': 'parameter of stage %d (%s) was last given the value %r, the NLP carries %r (values of all stages: wanted %s, got %s)' % (i, 'clone' if i < ncl else 'direct', w_, g_, want, got)})
+    seen('values given before the transcription')
+    with quiet():
+        m.stage_builts[0].stage.set_value(m.stage_builts[0].psym['a'], 6.5)
+    want[0] = 6.5
+    seen('one clone updated after the transcription')
+    with quiet():
+        m.ocp.subject_to(m.w <= 50)          # an edit: the next query transcribes again
+    seen('after a re-transcription')
+    res = {'stats': {'unsat': 0, 'sat': 0, 'unknown': 0, 'queries': 0, 'solver_s': 0.0}, 'obligations': len(proved) + len(viol), 'discharged': len(proved), 'nontrivial': proved,
+           'violations': viol, 'twins_ok': 0, 'twins_bad': 0, 'shape': 'stage-values|%s|%d clones' % (method, ncl), 'sample': {'kind': 'stage-values', 'method': method, 'clones': ncl, 'values': want}}
+    if viol:
+        res['status'] = 'violation'
+    return res
 
 
 def flat_value(p, cfg):
@@ -225,6 +275,8 @@ def run_order(item):
 def run(item):
     if item['kind'] == 'order':
         return run_order(item)
+    if item['kind'] == 'stage-values':
+        return run_stage_values(item)
     spec, cfg = item['spec'], item['cfg']
     inst = Inst(spec, cfg, seed=item.get('seed', 0))
     ch = Checker(inst)
